@@ -19,8 +19,14 @@ Failing-input search on the real code:
   * edits: EVERY unit label is changed to EVERY other admissible value in the content's configuration (all pressure modes, all
     loading / material bases incl. fraction / percent where the unit labels are free text: None, '' ...), every metadata entry by
     type, material properties, every data column (numeric above / below the 8-decimal threshold, text), branch marks, rows added /
-    removed / cells swapped, every model parameter, rmse, each range end, model name and branch — each must change the identifier,
-    and two different edits must not share one.
+    removed / cells swapped, every extra column removed / renamed, every model parameter, rmse, each range end, model name and branch —
+    each must change the identifier, and two different edits must not share one.
+Regions added by the triage T-C05 (each was a reproduced defect of the identifier; S45-C05a..f repaired in the repository, S46 / S47 recorded in
+known_findings.json and reported as KNOWN-FINDING): float32 / float16 / object-typed columns, negative zero and magnitudes below the threshold
+of either sign, extra-column names on both sides of 'branch' in the sort order, twin columns (same cells, other name), model numbers as python /
+numpy integers, float32, ndarray ranges; edit "two points swapped" (S46-C05: the order of the points is not hashed) and a metadata entry named
+`data_hash` (S47-C05: overwritten by the hashing function).  A member whose failing case matches a known finding is left out of the pairwise
+comparison with the Lean model (Props/C05/Findings.lean states both deviations).
 """
 import copy
 import json
@@ -40,11 +46,13 @@ LBASES = ["molar", "mass", "volume_gas", "volume_liquid", "fraction", "percent"]
 MBASES = ["mass", "volume", "molar"]
 # fraction / percent loading: the constructor validates neither the loading unit nor the material unit -> free text, None, ''
 FREE_UNITS = [None, "", "mmol", "mol", "g", "kg", "cm3", "wt%"]
-# extra data columns.  TODO(candidate defect D2, reported): a table that carries its own 'branch' column is laid out
-# [pressure, loading, sorted(others incl. 'branch')] while branch marks given as an argument give [pressure, loading, 'branch', sorted(others)]
-# -> an extra column whose name sorts before 'branch' gives two identifiers for one content.  All names below sort after 'branch'.
-EXTRA_NUM = ["time", "uptake rate", "enthalpy_2", "ünï col", "z"]
-EXTRA_TXT = ["phase_2", "remark", "zone"]
+# extra data columns.  Names on BOTH sides of 'branch' in the sort order (capitals, digits, 'a…' sort before it): a table that carries its own
+# 'branch' column used to be laid out [pressure, loading, sorted(others incl. 'branch')] while marks given as an argument gave
+# [pressure, loading, 'branch', sorted(others)] -> two identifiers for one content (finding S45-C05c, repaired in the repository).
+EXTRA_NUM = ["time", "uptake rate", "enthalpy_2", "ünï col", "z", "alpha", "Temperature cell", "2nd loading", "a"]
+EXTRA_TXT = ["phase_2", "remark", "zone", "Zone", "annotation", "0 flag"]
+# the entry that `isotherm_to_hash` writes into the dictionary it hashes (`raw_dict["data_hash"] = ...`, point and model isotherms)
+HASH_ENTRY = "data_hash"
 INDEX_KINDS = ["default", "shift", "str", "reversed", "float", "datetime", "duplicate", "multi", "negative", "named"]
 
 
@@ -70,42 +78,75 @@ def widen(rng, c):
         if rng.random() < 0.4:
             c["extra"][rng.choice(EXTRA_NUM)] = [float(rng.randint(0, 200)) for _ in range(n)]          # whole-number floats
         if rng.random() < 0.2:
-            # TODO(candidate defect D8, reported): negative zero hashes differently from zero (so -4e-9 and +4e-9, both 0.00000000 to 8 decimals, give two
-            # identifiers); `+ 0.0` keeps -0.0 out of the generated data
-            c["extra"][rng.choice(EXTRA_NUM)] = [round(rng.uniform(-5, 5), rng.randint(0, 10)) + 0.0 for _ in range(n)]
+            # signed decimals with 0-10 digits; negative zero included (round(-0.3, 0) = -0.0: the same datum as 0.0 — it used to hash differently:
+            # finding S45-C05b, repaired in the repository)
+            c["extra"][rng.choice(EXTRA_NUM)] = [round(rng.uniform(-5, 5), rng.randint(0, 10)) for _ in range(n)]
+        if rng.random() < 0.15:
+            # values at and around zero in a data column: 0.0, -0.0 and magnitudes below the rounding threshold of either sign
+            col = rng.choice(["loading"] + list(c["extra"]))
+            tgt = c[col] if col == "loading" else c["extra"][col]
+            if not isinstance(tgt[0], str):
+                for r in rng.sample(range(n), min(n, rng.randint(1, 2))):
+                    tgt[r] = rng.choice([0.0, -0.0, 4e-9, -4e-9, -1e-12])
         if rng.random() < 0.2:
             c["extra"][rng.choice(EXTRA_TXT)] = [rng.choice(["a", "b", "ads", "Ü", "1", "x y"]) for _ in range(n)]
+        if rng.random() < 0.12:
+            # two columns with the same cells under different names: only the NAME tells which quantity was recorded
+            k = rng.choice(sorted(c["extra"])) if c["extra"] else None
+            if k is not None:
+                twin = rng.choice([x for x in (EXTRA_TXT if isinstance(c["extra"][k][0], str) else EXTRA_NUM) if x not in c["extra"]])
+                c["extra"][twin] = list(c["extra"][k])
+    if c["kind"] == "model" and rng.random() < 0.4:
+        # model numbers that integer literals and narrower floats represent exactly (whole numbers / dyadic fractions): the int-literal,
+        # numpy-integer and float32 routes must give the identifier of the float route
+        m = c["model"]
+        den = rng.choice([1, 1, 2, 8])
+        dy = lambda x: (max(1, round(abs(x) * den)) / den) * (-1.0 if x < 0 else 1.0)          # noqa
+        m["params"] = {k: dy(v) for k, v in m["params"].items()}
+        m["pressure_range"] = [float(round(m["pressure_range"][0] * den)) / den, dy(m["pressure_range"][1]) + 1.0]
+        m["loading_range"] = [float(round(m["loading_range"][0] * den)) / den, dy(m["loading_range"][1]) + 1.0]
+        m["rmse"] = rng.choice([0.0, 1.0, 0.5, 0.125, m["rmse"]])
+    if c["kind"] != "base" and rng.random() < 0.08:
+        # a metadata entry under the very name the hashing function uses for the data / model entry of the hashed dictionary
+        c["meta"]["data_hash"] = rng.choice(["x", "", 0, 1.5, None, True])
     return c
 
 
-def _f32_safe(np, vals):
-    # TODO(candidate defect D7, reported): the library rounds to 8 decimals in the column's own precision BEFORE normalising to float64, so
-    # float32 data whose values are exactly representable (31.5) hash differently from the same values as float64 whenever
-    # round(float32(v), 8) != v.  Until that is fixed the float32 route is only taken where the float32 rounding is exact.
-    return all(float(np.round(np.float32(v), 8)) == float(v) and float(np.float32(v)) == float(v) for v in vals)
+def _narrow_safe(np, vals, dtype):
+    """Is every value exactly representable in the narrower float type?  Then the column in that type is the same content.  (The library
+    used to round to 8 decimals in the column's own precision before normalising to float64: float32 31.5 hashed as 31.50000191, float16
+    data as inf — findings S45-C05a, repaired in the repository.)"""
+    with np.errstate(all="ignore"):
+        return all(math.isfinite(float(dtype(v))) and float(dtype(v)) == float(v) for v in vals)
 
 
 def _reprs(np, vals):
     """Representations in which one column of a content can be handed over without changing the content."""
     if any(isinstance(v, str) for v in vals):
         return ["list", "tuple", "np.object", "pd.string", "pd.categorical"]
-    out = ["list", "tuple", "np.float64", "series", "pd.Float64", "np-scalars"]
-    if all(float(v).is_integer() and not (v == 0 and math.copysign(1.0, v) < 0) for v in vals):
-        out += ["list-int", "np.int64", "np.int32", "pd.Int64", "mixed", "series-int"]
+    out = ["list", "tuple", "np.float64", "series", "pd.Float64", "np-scalars", "np.object"]
+    if all(float(v).is_integer() for v in vals):
+        out += ["list-int", "np.int64", "np.int32", "pd.Int64", "mixed", "series-int", "np.object-int"]
         if all(0 <= v < 256 for v in vals):
             out += ["np.uint8"]
         if all(abs(v) < 32000 for v in vals):
             out += ["np.int16"]
-    if _f32_safe(np, vals):
+    if _narrow_safe(np, vals, np.float32):
         out += ["np.float32"]
+    if _narrow_safe(np, vals, np.float16):
+        out += ["np.float16"]
     return out
 
 
 def _column(np, pd, how, vals):
     if how in ("list", "tuple") and any(isinstance(v, str) for v in vals):
         return list(vals) if how == "list" else tuple(vals)
-    if how == "np.object":
+    if how == "np.object" and any(isinstance(v, str) for v in vals):
         return np.array(list(vals), dtype=object)
+    if how == "np.object":
+        return np.array([float(v) for v in vals], dtype=object)          # python floats in an object-typed array
+    if how == "np.object-int":
+        return np.array([int(v) for v in vals], dtype=object)
     if how == "pd.string":
         return pd.array(list(vals), dtype="string")
     if how == "pd.categorical":
@@ -137,14 +178,35 @@ def _column(np, pd, how, vals):
     raise ValueError(how)
 
 
+def _num_reprs(np, vals):
+    """Numeric types in which the numbers of a model can be handed over without changing them."""
+    out = ["float", "np.float64"]
+    if all(float(x).is_integer() and abs(x) < 2 ** 31 for x in vals):
+        out += ["int", "np.int64", "np.int32", "int", "np.int64"]
+    if _narrow_safe(np, vals, np.float32):
+        out += ["np.float32"]
+    return out
+
+
+def _num(np, how, x):
+    if how in ("int", "np.int64", "np.int32"):
+        return {"int": int, "np.int64": np.int64, "np.int32": np.int32}[how](int(x))
+    return {"float": float, "np.float64": np.float64, "np.float32": np.float32}[how](float(x))
+
+
 def variant(rng, np, c):
     """A random way of handing the SAME content to the constructor (plain description, goes into the replay file)."""
     t = float(c["temperature"])
     v = {"shorthand": rng.random() < 0.3, "material": rng.choice(["as-is", "object"]),
          "temperature": rng.choice(["float", "text", "np.float64"] + (["int", "np.int64"] if t.is_integer() else []))}
     if c["kind"] == "model":
-        v["params"] = rng.choice(["float", "np.float64"])          # TODO(candidate defect D3, reported): int literals / numpy ints give another id or TypeError
-        v["ranges"] = rng.choice(["list", "tuple"])
+        # every number of the model (parameters, fit error, range ends) in any numeric type that holds it exactly: 2, numpy.int64(2), numpy.float32(2)
+        # and 2.0 are one value (they used to give other identifiers or `TypeError: not JSON serializable`: finding S45-C05e, repaired in the repository)
+        m = c["model"]
+        v["params"] = rng.choice(_num_reprs(np, list(m["params"].values())))
+        v["rmse"] = rng.choice(_num_reprs(np, [m["rmse"]]))
+        v["range_values"] = rng.choice(_num_reprs(np, list(m["pressure_range"]) + list(m["loading_range"])))
+        v["ranges"] = rng.choice(["list", "tuple", "ndarray"])
         v["param_order"] = rng.random() < 0.5
     if c["kind"] == "point":
         names = ["pressure", "loading"] + list(c["extra"])
@@ -186,9 +248,12 @@ def build_variant(pg, c, v):
         keys = list(m["params"])
         if v["param_order"]:
             keys = keys[::-1]
-        conv = np.float64 if v["params"] == "np.float64" else float
-        seq = tuple if v["ranges"] == "tuple" else list
-        model = get_isotherm_model(m["name"], parameters={k: conv(m["params"][k]) for k in keys}, rmse=m["rmse"],
+        rv = v.get("range_values", "float")
+        if v["ranges"] == "ndarray":
+            seq = lambda xs: np.array([float(x) for x in xs], dtype={"int": "int64", "float": "float64"}.get(rv, rv[3:]))          # noqa
+        else:
+            seq = lambda xs: (tuple if v["ranges"] == "tuple" else list)(_num(np, rv, x) for x in xs)          # noqa
+        model = get_isotherm_model(m["name"], parameters={k: _num(np, v["params"], m["params"][k]) for k in keys}, rmse=_num(np, v.get("rmse", "float"), m["rmse"]),
                                    pressure_range=seq(m["pressure_range"]), loading_range=seq(m["loading_range"]))
         return pg.ModelIsotherm(model=model, branch=c["model_branch"], **common)
     br = c["branch"]
@@ -236,7 +301,7 @@ def shrink_variant(pg, c, v, id0):
     default row labels, natural column order ...) as long as the identifier still differs: what is left is what matters."""
     v = json.loads(json.dumps(v))
     names = ["pressure", "loading"] + list(c.get("extra", {}))
-    plain = [("shorthand", False), ("material", "as-is"), ("temperature", "float"), ("params", "float"), ("ranges", "list"), ("param_order", False),
+    plain = [("shorthand", False), ("material", "as-is"), ("temperature", "float"), ("params", "float"), ("rmse", "float"), ("range_values", "float"), ("ranges", "list"), ("param_order", False),
              ("index", "default"), ("order", names), ("branch", "list"), ("container", "table")]
 
     def differs(w):
@@ -354,10 +419,10 @@ def edits(rng, c, quick=True):
     """Single-field edits of a content, each of which must change the identifier: [(name, edited content)]."""
     out = []
 
-    def ed(name, f):
+    def ed(name, f, **tag):
         d = copy.deepcopy(c)
         f(d)
-        out.append((name, d))
+        out.append((name, d, tag))
     ed("temperature", lambda d: d.__setitem__("temperature", d["temperature"] + 0.5))
     ed("temperature + 1 ulp", lambda d: d.__setitem__("temperature", _up(d["temperature"])))
     for gas in ["helium", "methane", "pgv_other_gas"][: (1 if quick else 3)]:
@@ -373,11 +438,15 @@ def edits(rng, c, quick=True):
         ed("label: " + name, lambda d: d["units"].update(kw))
     ed("metadata added", lambda d: d["meta"].__setitem__("extra_key_zz", 1))
     ed("metadata added (None)", lambda d: d["meta"].__setitem__("extra_key_zz", None))
+    if HASH_ENTRY not in c["meta"] and rng.random() < 0.25:
+        ed("metadata added", lambda d: d["meta"].__setitem__(HASH_ENTRY, "x"), **({"metadata_key": HASH_ENTRY} if c["kind"] != "base" else {}))
     for k in sorted(c["meta"], key=str):
         v = c["meta"][k]
+        # the key goes into the signature where it is the name of the hashing function's own entry (an input class of its own: known finding S47-C05)
+        tag = {"metadata_key": k} if (k == HASH_ENTRY and c["kind"] != "base") else {}          # (a metadata-only isotherm has no data entry: nothing is overwritten there)
         for name, w in value_edits(v):
-            ed(f"metadata value ({type(v).__name__}): {name}", lambda d: d["meta"].__setitem__(k, w))
-        ed("metadata removed", lambda d: d["meta"].pop(k))
+            ed(f"metadata value ({type(v).__name__}): {name}", lambda d: d["meta"].__setitem__(k, w), **tag)
+        ed("metadata removed", lambda d: d["meta"].pop(k), **tag)
         if k + "_" not in c["meta"] and k + "_" not in isogen.RESERVED:
             ed("metadata key renamed", lambda d: d["meta"].__setitem__(k + "_", d["meta"].pop(k)))
     if c["kind"] == "point":
@@ -402,12 +471,22 @@ def edits(rng, c, quick=True):
             else:
                 ed("extra column value +1", lambda d: d["extra"][k].__setitem__(r, d["extra"][k][r] + 1))
                 ed("extra column value +2e-8", lambda d: d["extra"][k].__setitem__(r, float(d["extra"][k][r]) + 2e-8 * max(1.0, abs(d["extra"][k][r]))))
-        if c["extra"]:
-            # TODO(candidate defect D6, reported): the NAMES of the extra columns are not part of the identifier (only their values, in name order), so
-            # removing column 'phase' = ['1'] or column 'zone' = ['1'] leaves two different contents with one identifier.  One column is removed per
-            # content, so that no two edits of a family differ in a column name only.
-            kdel = rng.choice(sorted(c["extra"]))
+        for kdel in sorted(c["extra"]):
+            # the NAME of an extra column is content (which quantity was recorded): every column is removed in turn — two of them may hold the same
+            # cells — and renamed (the names used not to be part of the identifier: finding S45-C05d, repaired in the repository)
             ed("extra column removed", lambda d: d["extra"].pop(kdel))
+            knew = kdel + " (2)" if rng.random() < 0.5 else ("A " + kdel)
+            if knew not in c["extra"]:
+                ed("extra column renamed", lambda d: d["extra"].__setitem__(knew, d["extra"].pop(kdel)))
+        if n > 1:
+            # the ORDER of the points is content (`pressure()`, `loading()`, `data()` return them in it): two whole points exchanged
+            a, b = rng.sample(range(n), 2)
+            row = lambda d, r: [d["pressure"][r], d["loading"][r], d["branch"][r]] + [d["extra"][k][r] for k in sorted(d["extra"])]          # noqa
+            if row(c, a) != row(c, b):
+                def swap(d):
+                    for col in [d["pressure"], d["loading"], d["branch"]] + list(d["extra"].values()):
+                        col[a], col[b] = col[b], col[a]
+                ed("two points swapped", swap)
         if "pgv_col" not in c["extra"]:
             ed("extra column added", lambda d: d["extra"].__setitem__("pgv_col", [0.0] * n))
     if c["kind"] == "model":
@@ -519,7 +598,12 @@ def run(ck):
                          bucket="representation:" + ("point column" if col in ("pressure", "loading") else "extra column") + ":" + how)
             if "branch" in v:
                 ck.count(("variant-branch", v["branch"]), nontrivial=False, bucket="representation:branch:" + v["branch"] + ("/in table" if "branch" in v.get("order", []) else ""))
-            oid = other.iso_id
+            try:
+                oid = other.iso_id
+                _ = other == iso
+            except Exception as e:  # noqa
+                ck.fail_case({**sig, "clause": "route refused", "route": "representation", "step": "identifier / =="}, {"error": repr(e)[:300], "representation": v, "content": c6full(c)})
+                continue
             # `==` costs two more identifier computations: always for the cheap classes, for the first representations of a point isotherm
             if oid != id0 or ((c["kind"] != "point" or k < 2) and (not (other == iso) or not (iso == other))):
                 sg = {**sig, "clause": "same content, different identifier", "route": "representation"}
@@ -634,14 +718,14 @@ def run(ck):
         ids_seen = {id0: ("original", json.dumps(c, sort_keys=True, default=str))}
         all_edits = edits(rng, c, quick)
         eq_checked = set(range(len(all_edits))) if c["kind"] != "point" else set(rng.sample(range(len(all_edits)), min(8, len(all_edits))))
-        for ne, (name, d) in enumerate(all_edits):
+        for ne, (name, d, tag) in enumerate(all_edits):
             try:
                 e = isogen.build(pg, d)
             except Exception as ex:
                 ck.count(("edit-refused", name, i), nontrivial=False, bucket="edit refused by the constructor:" + name.split(" ->")[0] + ":" + type(ex).__name__)
                 continue
-            if c["kind"] == "point" and ("e-8" in name) and not _really_changes_rounded(c, d):
-                continue
+            if c["kind"] == "point" and any(c[k] != d[k] for k in ("pressure", "loading", "branch", "extra")) and not _really_changes_rounded(c, d):
+                continue          # a data edit that the rounding to 8 decimals absorbs (+2e-8 next to a tie, 4e-9 exchanged with -4e-9): the content is unchanged
             ck.count(("edit", name, i), bucket="edit:" + name.split(" ->")[0])
             if name.startswith("label: "):
                 ck.count(("edit-cfg", name.split(" ->")[0], tuple(cfg.values())), nontrivial=False,
@@ -650,8 +734,13 @@ def run(ck):
             dj = json.dumps(d, sort_keys=True, default=str)
             edit_class = name.split(" ->")[0]
             if eid == id0 or (ne in eq_checked and ((e == iso) or (iso == e))):
-                ck.fail_case({**sig, "clause": "different content, same identifier", "edit": edit_class, **(cfg if name.startswith("label: ") else {})},
-                             {"edit": name, "id": id0, "content": c6full(c), "edited_content": c6full(d)})
+                sg = {**sig, "clause": "different content, same identifier", "edit": edit_class, **(cfg if name.startswith("label: ") else {}), **tag}
+                ck.fail_case(sg, {"edit": name, "id": id0, "content": c6full(c), "edited_content": c6full(d)})
+                if ck.match_known(sg) is not None:
+                    # a recorded deviation of the real identifier from the model (known_findings.json): reported above as KNOWN-FINDING; the member is
+                    # kept out of the pairwise comparison with the full-strength model below, which would only repeat it without an input
+                    ck.count(("known-deviation", name, i), nontrivial=False, bucket="known finding reproduced:" + edit_class)
+                    continue
             elif eid in ids_seen and ids_seen[eid][1] != dj:
                 ck.fail_case({**sig, "clause": "different content, same identifier", "edit": "two different edits: " + edit_class + " / " + ids_seen[eid][0].split(" ->")[0]},
                              {"edits": [name, ids_seen[eid][0]], "id": eid, "content": c6full(c), "edited_content": c6full(d)})
@@ -670,6 +759,17 @@ def run(ck):
                     ck.count(("below-threshold", col, i), bucket="edit:below threshold")
                     if e.iso_id != id0:
                         ck.fail_case({**sig, "clause": "identifier changed below the 8-decimal threshold"}, {"column": col, "row": r, "value": old, "content": c6full(c)})
+            # zero has neither a sign nor digits below the threshold: 0.0, -0.0, +-4e-9 in one cell are one content
+            col = rng.choice(["loading"] + [k for k in sorted(c["extra"]) if not isinstance(c["extra"][k][0], str)])
+            r = rng.randrange(len(c["loading"]))
+            zid = {}
+            for z in (0.0, -0.0, 4e-9, -4e-9):
+                d = copy.deepcopy(c)
+                (d[col] if col in d else d["extra"][col])[r] = z
+                zid[repr(z)] = isogen.build(pg, d).iso_id
+            ck.count(("around-zero", col, i), bucket="edit:below threshold around zero")
+            if len(set(zid.values())) > 1:
+                ck.fail_case({**sig, "clause": "identifier changed below the 8-decimal threshold", "around": "zero"}, {"column": col, "row": r, "ids_by_value": zid, "content": c6full(c)})
         member(iso, id0, i, "original", c)
         if i % 3 == 0:
             second.append((c, id0))
@@ -741,7 +841,8 @@ def run(ck):
                       "random representation of EVERY column (python int / float / mixed, numpy int8..64 / uint8 / float32 / float64, numpy scalars, Series, pandas Int64 / Float64, text as object / string / categorical) x container x 10 row "
                       "labellings x column order x branch hand-over x temperature type, parse of a JSON export, a second process with another PYTHONHASHSEED}; read-only calls in between; every single-field edit (temperature, adsorbate, "
                       "material and its properties, EVERY unit label to EVERY other admissible value in the content's configuration, every metadata entry by type / added / removed / renamed, every data column above and below the "
-                      "8-decimal threshold, branch mark, point removed / repeated, cells swapped, extra column added / removed, every model parameter / rmse / range end / name / branch); distinct = distinct (content, route or edit)")
+                      "8-decimal threshold and around zero (0.0, -0.0, +-4e-9), branch mark, point removed / repeated, cells swapped, two points swapped, every extra column removed / renamed, one added, every model parameter / rmse / range end / name / branch); "
+                      "representations also: float16 / float32 where exact, object-typed numeric columns, model numbers as python / numpy integers and float32, ndarray ranges; distinct = distinct (content, route or edit)")
     ck.assumptions += ["md5 and pandas.util.hash_pandas_object are collision-free on the explored contents (uninterpreted H in the theorems)"]
     _construct_section(ck, pg)          # E17 (new block below)
 
@@ -780,9 +881,11 @@ def _canon_input(pg, iso):
     obs = isogen.observe(pg, iso)
     out = {"core": json.loads(json.dumps(obs["dict"], default=float))}
     if "columns" in obs:
-        raw = iso.data_raw.round(8)
+        import numpy as np
+        raw = iso.data_raw
         names = [c for c in raw.columns if c != "branch"]
-        cols = {k: [v if isinstance(v, str) else float(v) for v in raw[k].tolist()] for k in names}
+        # the data "to 8 decimals": every number as a float64, rounded, zero unsigned — whatever type the column has (stated here, not copied from the library)
+        cols = {k: [v if isinstance(v, str) else float(np.round(np.float64(v), 8)) + 0.0 for v in raw[k].tolist()] for k in names}
         marks = [int(b) for b in raw["branch"].tolist()]
         rows = [{**{k: cols[k][i] for k in names}, "branch": marks[i]} for i in range(len(marks))]
         out["rows"] = rows
@@ -805,9 +908,9 @@ def _content_input(pg, c, iso):
     if c["kind"] == "point":
         rows = []
         for i in range(len(c["pressure"])):
-            r = {"pressure": float(np.round(np.float64(c["pressure"][i]), 8)), "loading": float(np.round(np.float64(c["loading"][i]), 8)), "branch": int(c["branch"][i])}
+            r = {"pressure": float(np.round(np.float64(c["pressure"][i]), 8)) + 0.0, "loading": float(np.round(np.float64(c["loading"][i]), 8)) + 0.0, "branch": int(c["branch"][i])}
             for k, col in c["extra"].items():
-                r[k] = col[i] if isinstance(col[i], str) else float(np.round(np.float64(col[i]), 8))
+                r[k] = col[i] if isinstance(col[i], str) else float(np.round(np.float64(col[i]), 8)) + 0.0
             rows.append(r)
         out["rows"] = rows
     elif c["kind"] == "model":
